@@ -185,8 +185,8 @@ class TrainerWorld(World):
         # delays
         needs = trainer in NEEDS_DELAY or trainer.startswith("cross")
         dmode = "adjusted" if needs else rc.choice(["none", "none", "frozen", "delayed"])
-        if pooled:
-            dmode = "none"
+        if pooled and trainer == "MSTDPET" and dmode == "delayed":
+            dmode = "frozen"
         if trainer in ("MSTDPET", "LinearHomeostasis") and dmode == "delayed":
             dmode = "frozen"
         cfg["dmode"] = dmode
@@ -200,6 +200,9 @@ class TrainerWorld(World):
                 cfg["delay_k"] = [round(rc.uniform(0, kmax), 2) for _ in range(nsyn)]     # learned (off-grid) delays are legal for the adjusted rules
             else:
                 cfg["delay_k"] = [float(rc.randint(0, kmax)) for _ in range(nsyn)]
+            if pooled:
+                nsyn_b = int(np.prod(cfg["inshape_b"])) * int(np.prod(cfg["outshape"]))
+                cfg["cell_b"]["delay_k"] = [float(rc.randint(0, kmax)) for _ in range(nsyn_b)]
         if trainer in THREE_FACTOR:
             cfg["reward"] = rc.choice(["scalar", "scalar", "persample"])
             if cfg["reward"] == "persample":
